@@ -414,6 +414,8 @@ func c06(c *Ctx) (*report.Result, error) {
 			res.Undec("O6.8", "critical sections of the tracker and the observer", "", fmt.Sprintf("%d found", n))
 		}
 	}
+	res.RuleDoc["O6.9"] = "no swallowed error in the files the mechanism lives in: no function returns a nil error on a path on which an error obtained from a call is known to be non-nil (io.EOF from a stream Recv, the normal end of a receive loop, is the one accepted idiom)"
+	checkNoSwallowedErrors(c, res, "O6.9", []string{"proxy/admin_stream_transfer.go", "proxy/adminservice.go"})
 	return res, nil
 }
 
